@@ -531,8 +531,21 @@ pub fn eval_undefined(c: &(crate::c14::Raw14, u8, u8)) -> CaseOutcome {
     let mut lines: Vec<String> = p.lines.iter().map(|l| l.text.clone()).collect();
     // one jump to a label that does not exist, at a live position or at the end, indented
     let ind = [" ", "", "\t", "    ", "  \t "][*indent as usize % 5];
-    let stmt = format!("{}{} nowhere_1", ind, ["jmp", "jz", "loop", "JNBE"][*indent as usize % 4]);
-    let at = if *pos % 2 == 0 { p.live_pos } else { lines.len() };
+    // directly, or coming out of a macro (nesting depth 1 or 2): then the use site is what the message must cite
+    let via_macro = *pos % 3;
+    let mn = ["jmp", "jz", "loop", "JNBE"][*indent as usize % 4];
+    let stmt = match via_macro {
+        0 => format!("{}{} nowhere_1", ind, mn),
+        1 => format!("{}jq8(nowhere_1)", ind),
+        _ => format!("{}jq9(nowhere_1)", ind),
+    };
+    let mut at = if *pos % 2 == 0 { p.live_pos } else { lines.len() };
+    if via_macro > 0 {
+        let first_code = p.lines.iter().position(|l| !matches!(l.kind, crate::c14::LK::Data(_))).unwrap_or(0);
+        lines.insert(first_code, format!("macro jq8(t) -> {} t <-", mn));
+        lines.insert(first_code + 1, "macro jq9(u) -> nop jq8 (u) <-".to_string());
+        at += 2;
+    }
     lines.insert(at, stmt.clone());
     let text = crate::c14::text_of(&lines);
     let want_line = at + 1;
@@ -562,7 +575,11 @@ pub fn eval_undefined(c: &(crate::c14::Raw14, u8, u8)) -> CaseOutcome {
     if col != ind.len() {
         return CaseOutcome::Fail { key: "c16|undefined|wrong-column".into(), what: format!("jump to an undefined label at line {} column {} ('{}') reported at column {}", want_line, ind.len(), stmt, col), replay };
     }
-    CaseOutcome::Pass { nontrivial: want_line > 1, classes: vec!["c16/undefined-label".into(), if *pos % 2 == 0 { "c16/undefined-label/middle".into() } else { "c16/undefined-label/last-line".into() }], digest: fnv_str(&text) }
+    CaseOutcome::Pass {
+        nontrivial: want_line > 1,
+        classes: vec!["c16/undefined-label".into(), if *pos % 2 == 0 { "c16/undefined-label/middle".into() } else { "c16/undefined-label/last-line".into() }, format!("c16/undefined-label/macro-depth-{}", via_macro)],
+        digest: fnv_str(&text),
+    }
 }
 
 pub fn run(ctx: &Ctx) {
@@ -593,7 +610,7 @@ pub fn run(ctx: &Ctx) {
     run_cases(ctx, "c16-semantic-cli", n_s, || (crate::c14::raw_s(), any::<u16>(), Just(true)), eval_semantic, |_| json!("semantic mutant, CLI"));
     let n_d = ctx.tier.pick(150usize, 1_500usize);
     run_cases(ctx, "c16-undefined", n_d, || (crate::c14::raw_s(), any::<u8>(), any::<u8>()), eval_undefined, |_| json!("jump to an undefined label"));
-    for k in ["c16/runtime/print", "c16/runtime/about", "c16/runtime/int3", "c16/runtime/divide-error", "c16/runtime/unsupported-interrupt", "c16/runtime/no-trailing-newline", "c16/semantic/cli", "c16/undefined-label/last-line"] {
+    for k in ["c16/runtime/print", "c16/runtime/about", "c16/runtime/int3", "c16/runtime/divide-error", "c16/runtime/unsupported-interrupt", "c16/runtime/no-trailing-newline", "c16/semantic/cli", "c16/undefined-label/last-line", "c16/undefined-label/macro-depth-1", "c16/undefined-label/macro-depth-2"] {
         ctx.require_class(k, 15);
     }
 }
